@@ -115,6 +115,13 @@ var specs = map[string]spec{
 		Assumptions: []string{"handler intent follows the net/http ResponseWriter contract: headers are snapshotted at the first WriteHeader/Write/Flush, trailers are declared before and set after the body",
 			"handlers that write a body different from their explicit Content-Length, or a body with 204/304, are not generated"},
 	},
+	"C10": {
+		World: "e2e", Level: "exploration", QuickS: 40, ThoroughS: 900,
+		Rule: "cases = nbhttp.Engine in IOMod {NonBlocking, Blocking, Mixed} x epoll mode {LT, ET, ET+ONESHOT} x 1-2 pollers x executor {inline, taskpool of 2 / 4}, 1-4 concurrent raw simulated client connections, each with 1-4 requests (HTTP/1.0 / 1.1, Connection variants, Content-Length or chunked request bodies up to 20000 bytes, response bodies from {0,1,100,1000,4096,65535,65536,70000}, handler sleeps / yields / Flush mid-body), pipelining window 1-4, client write size {1,7,64,all}; kernel: send capacity 64B-256KiB, in-flight delivery, short reads/writes, withheld readiness; oracle per connection: the received stream decodes (http.ReadResponse) to exactly one answer per written request, in order, each echoing its request's unique id with the keyed body; the handler sees the keyed request body; connection kept / closed as version and Connection header dictate; no id of another connection; handlers of one connection never overlap; non-trivial = >= 2 connections and a pipelined request; distinct = context-switch sequence hash",
+		Real: []string{"nbhttp.Engine, Parser, ServerProcessor, Response, lmux, nbio.Engine/Conn/poller, taskpool (transformed real code)", "net/http types and http.ReadResponse as client-side decoder"},
+		Stub: append([]string{"TLS: NOT explored (plain TCP only)", "nbhttp.Client: NOT explored in this check (server side only)"}, stubKernel...),
+		Assumptions: append([]string{"requests pipelined behind an exchange that closes the connection may be dropped", "the client clause of C10 (nbhttp.Client callbacks) and TLS are not covered; the evidence says so"}, assumeKernel...),
+	},
 	"C11": {
 		World: "stream", Level: "exploration", QuickS: 30, ThoroughS: 600,
 		Rule: "cases = a mix of the C09 handler programs (half with transport write failures, biased to 64KiB-crossing writes), the C12 round trips (40% with sender transport failures), the C13 byzantine frame sequences, the C08 corrupted request streams through ServerProcessor/BodyReader and the C15 limit scenarios; the primary oracle is the ownership-tracking allocator installed as mempool.DefaultMemPool (stable pointer, like MemPool) and as BodyAllocator (moving when capacity is exceeded, like AlignedAllocator): Free/Append/AppendString/Realloc on a freed or foreign buffer, second Free, write into a quarantined (poisoned, never recycled) buffer, poison showing up on the wire; non-trivial = at least 3 buffers were returned to the allocators in the run; distinct = fingerprint of the underlying case",
